@@ -66,7 +66,10 @@ def run(ctx):
                             'non-trivial = history contains a move or swap involving a heap-backed vector')
     def nontrivial(cfg, lines, obs):
         return any(l.split()[0] in ('mov', 'mct', 'swp') for l in lines) and any(o.blocks > 0 for o in obs)
-    VC.run(ctx, vcommon.cfgs(ctx.tier), vcommon.history_gen(40, allow_alias=False), n, preds=(capacity_pred, VC.fault_pred),
+    ga, gn = vcommon.history_gen(40, allow_alias=True), vcommon.history_gen(40, allow_alias=False)
+    # every other history passes value arguments that refer to elements of the vector itself (push_back(v[i]), resize(n, v[i]) …):
+    # the capacity contract does not depend on where the value lives
+    VC.run(ctx, vcommon.cfgs(ctx.tier), lambda rng, cfg, k: (ga if k % 2 else gn)(rng, cfg, k), n, preds=(capacity_pred, VC.fault_pred),
            nontrivial=nontrivial, label='C07 history')
 
 def replay(ctx, path):
